@@ -475,6 +475,251 @@ def saveTags (library withStandard : Str) (saveMerged : Bool) (all : List Entry)
     Except Refuse (List (Nat × Entry)) :=
   (processFlags library withStandard saveMerged).map fun f => outputTags f all
 
+/-! ## MediaWiki: the flat sections and the unit-class section -/
+
+/-- lines of `_output_section` for one flat section (unit modifiers, value classes, attributes, properties) -/
+def sectionLines (es : List Entry) : List Str := es.map fun e => entryLine 1 e.name (entryExtras e)
+
+/-- `SchemaLoaderWiki._read_section` over the raw lines of one flat section -/
+def ofWikiSection : List Str → Except WErr (List Entry)
+  | [] => .ok []
+  | raw :: rest =>
+    match cleanLine raw with
+    | .error e => .error e
+    | .ok none => ofWikiSection rest
+    | .ok (some row) =>
+      match readEntry row with
+      | .error e => .error e
+      | .ok (name, attrs, desc) =>
+        match ofWikiSection rest with
+        | .error e => .error e
+        | .ok es => .ok (⟨name, attrs, desc⟩ :: es)
+
+/-- lines of `_output_units` when every class is written with its properties: `* class` then `** unit` lines -/
+def unitLines : List (Entry × List Entry) → List Str
+  | [] => []
+  | (uc, us) :: r =>
+    entryLine 1 uc.name (entryExtras uc) :: (us.map fun u => entryLine 2 u.name (entryExtras u)) ++ unitLines r
+
+/-- `SchemaLoaderWiki._read_unit_classes`, read from the end: (units not yet claimed by a class, classes).
+A level-1 line is a unit class and takes the unit lines that follow it. -/
+def ofWikiUnitsAux : List Str → Except WErr (List Entry × List (Entry × List Entry))
+  | [] => .ok ([], [])
+  | raw :: rest =>
+    match cleanLine raw with
+    | .error e => .error e
+    | .ok none => ofWikiUnitsAux rest
+    | .ok (some row) =>
+      match tagLevel row, readEntry row with
+      | none, _ => .error .noName
+      | _, .error e => .error e
+      | some l, .ok (name, attrs, desc) =>
+        match ofWikiUnitsAux rest with
+        | .error e => .error e
+        | .ok (pend, cls) =>
+          if l == 1 then .ok ([], (⟨name, attrs, desc⟩, pend) :: cls) else .ok (⟨name, attrs, desc⟩ :: pend, cls)
+
+/-- a unit line before any class line makes the Python loader fail (`None.add_unit`) -/
+def ofWikiUnits (lines : List Str) : Except WErr (List (Entry × List Entry)) :=
+  match ofWikiUnitsAux lines with
+  | .error e => .error e
+  | .ok ([], cls) => .ok cls
+  | .ok (_ :: _, _) => .error .crash
+
+/-- well-formedness of an entry line of the other sections (`depth` 1, units 2): as `lineWF`, description trimmed,
+and the name does not end in `#` (such a name would be moved into the nowiki part only for tags) -/
+def secWF (depth : Nat) (e : Entry) : Bool :=
+  lineWF depth e.name e.attrs e.desc && descTrimmed e.desc && !(e.name.getLast? == some '#')
+
+/-! ## TSV: the rows of the tag sheet (cell quoting is pandas' job and stays outside) -/
+
+def hedIdKey : Str := ['h', 'e', 'd', 'I', 'd']
+def annotationKey : Str := ['a', 'n', 'n', 'o', 't', 'a', 't', 'i', 'o', 'n', 'P', 'r', 'o', 'p', 'e', 'r', 't', 'y']
+def rootedKey : Str := ['r', 'o', 'o', 't', 'e', 'd']
+def hedTag : Str := ['H', 'e', 'd', 'T', 'a', 'g']
+def dashHash : Str := ['-', '#']
+
+/-- one row of the `Tag` sheet: hedId, Level, rdfs:label, omn:SubClassOf, Attributes, dc:description
+(the derived omn:EquivalentTo column is ignored by the reader and not modelled) -/
+structure TsvRow where
+  hedId : Str
+  level : Nat
+  name : Str
+  parent : Str
+  attrs : Str
+  desc : Str
+deriving DecidableEq, Repr, Inhabited
+
+/-- `HedTagEntry.short_tag_name`: last path segment, for a value-taking child `A/B/#` the segment before it -/
+def shortTag (name : Str) : Str :=
+  match (splitOn '/' name).reverse with
+  | last :: prev :: _ => if last == ['#'] then prev else last
+  | [last] => if last == ['#'] then [] else last
+  | [] => []
+
+/-- `Schema2DF._attribute_disallowed` on top of the base rule (applied before): hedId has its own column -/
+def dfAttrs (as : Attrs) : Attrs := as.filter fun kv => !(kv.1 == hedIdKey) && !(kv.1 == annotationKey)
+
+def lookupAttr (as : Attrs) (k : Str) : Option (List Str) := (as.find? (·.1 == k)).map (·.2)
+
+/-- `Schema2DF._write_tag_entry` for one written entry (`e` already without the attributes the base writer drops) -/
+def tsvRow (lv : Nat) (e : Entry) : TsvRow :=
+  { hedId := match lookupAttr e.attrs hedIdKey with
+      | none => []
+      | some [] => ['T', 'r', 'u', 'e']            -- f"{True}"
+      | some vs => joinWith [','] vs
+    level := lv
+    name := if e.name.getLast? == some '#' then shortTag e.name ++ dashHash else shortTag e.name
+    parent := match parentName e.name with
+      | none => hedTag
+      | some p => shortTag p
+    attrs := formatAttr (dfAttrs e.attrs)
+    desc := e.desc.getD [] }
+
+def toTsvRows (leveled : List (Nat × Entry)) : List TsvRow := leveled.map fun p => tsvRow p.1 p.2
+
+inductive TErr where
+  | noName            -- "No tag name found in row."
+  | crash             -- an uncaught Python exception: TypeError in the attribute parser; a malformed attribute
+                      -- string (`_get_tag_attributes` records the error and returns None, which `_create_entry`
+                      -- then indexes / iterates); IndexError for a tag named `#`
+  | unresolvedParent  -- parent not (yet) known: the multi-round retry of `_read_schema` is not modelled
+  | needsPartner      -- rooted tag of an unmerged file: needs the partner schema, not modelled
+deriving DecidableEq, Repr, Inhabited
+
+/-- dictionary assignment `d[k] = v` -/
+def dictPut {α} (d : List (Str × α)) (k : Str) (v : α) : List (Str × α) :=
+  if d.any (·.1 == k) then d.map fun kv => if kv.1 == k then (k, v) else kv else d ++ [(k, v)]
+
+def dictGet {α} (d : List (Str × α)) (k : Str) : Option α := (d.find? (·.1 == k)).map (·.2)
+
+/-- `x.endswith("-#")` -/
+def endsDashHash (s : Str) : Bool := dashHash.reverse.isPrefixOf s.reverse
+
+/-- `"/".join(parent_tags) + "/" + tag_name if parent_tags else tag_name` -/
+def tsvLong (parents : Option (List Str)) (tagName : Str) : Str :=
+  match parents with
+  | some (p :: ps) => joinWith ['/'] (p :: ps) ++ '/' :: tagName
+  | _ => tagName
+
+/-- `SchemaLoaderDF._read_schema` (first round) with `_create_tag_entry/_create_entry`;
+`known` = `known_parent_tags` (short name ↦ path) -/
+def ofTsvFrom : List TsvRow → List (Str × List Str) → Except TErr (List Entry)
+  | [], _ => .ok []
+  | r :: rest, known =>
+    let tagName := if endsDashHash r.name then ['#'] else r.name
+    if tagName.isEmpty then .error .noName
+    else
+      let parents := dictGet known r.parent
+      let long := tsvLong parents tagName
+      match parseAttr r.attrs with
+      | .error _ => .error .crash
+      | .ok attrs =>
+        let attrs := if r.hedId.isEmpty then attrs else dictPut attrs hedIdKey (splitOn ',' r.hedId)
+        let desc := if r.desc.isEmpty then none else some (strip r.desc)
+        if long == ['#'] then .error .crash      -- `_get_tag_forms("#")` is empty: IndexError in `_create_tag_entry`
+        else if parents.isNone then
+          (if hasKey attrs rootedKey then .error .needsPartner else .error .unresolvedParent)
+        else
+          match ofTsvFrom rest (dictPut known (shortTag long) (splitOn '/' long)) with
+          | .error e => .error e
+          | .ok es => .ok (⟨long, attrs, desc⟩ :: es)
+
+def ofTsvRows (rows : List TsvRow) : Except TErr (List Entry) := ofTsvFrom rows [(hedTag, [])]
+
+/-- the entry as the TSV reader hands it back: hedId re-attached behind the other attributes -/
+def hedLast (e : Entry) : Entry :=
+  match lookupAttr e.attrs hedIdKey with
+  | none => e
+  | some vs => { e with attrs := (e.attrs.filter fun kv => !(kv.1 == hedIdKey)) ++ [(hedIdKey, vs)] }
+
+/-- the `omn:SubClassOf` cell of each row resolves, in `known_parent_tags`, to the path of the tag's parent
+(what distinct short names give: C03's `ShortDistinct`) -/
+def TsvResolvable : List (Str × List Str) → List Entry → Bool
+  | _, [] => true
+  | known, e :: r =>
+    let cs := splitOn '/' e.name
+    let cell := match parentName e.name with
+      | none => hedTag
+      | some p => shortTag p
+    (dictGet known cell == some cs.dropLast) && TsvResolvable (dictPut known (shortTag e.name) cs) r
+
+/-- what the TSV row layout needs on top of the attribute grammar -/
+def tsvWF (e : Entry) : Bool :=
+  let cs := splitOn '/' e.name
+  attrsWF e.attrs && !hasKey e.attrs annotationKey &&
+  (match lookupAttr e.attrs hedIdKey with | some [] => false | _ => true) &&
+  (match e.desc with | none => true | some d => !d.isEmpty && trimmed d) &&
+  cs.all (fun c => !c.isEmpty) &&
+  (match cs.reverse with
+   | last :: _ :: _ => last == ['#'] || !(last.getLast? == some '#')
+   | [last] => !(last.getLast? == some '#')
+   | [] => false)
+
+/-! ## XML: the abstract element tree of the tag section (text ↔ tree is ElementTree's job) -/
+
+/-- `<node><name>n</name>[<description>d</description>](<attribute><name>k</name><value>v</value>*</attribute>)*
+child nodes</node>` -/
+inductive XNode where
+  | node (name : Str) (desc : Option Str) (attrs : Attrs) (children : List XNode)
+deriving Repr, Inhabited
+
+/-- `if tag_description:` — a `<description>` element only for a non-empty description -/
+def xmlDesc : Option Str → Option Str
+  | some d => if d.isEmpty then none else some d
+  | none => none
+
+/-- `Schema2XML._write_tag_entry`: the element of one written entry, still without children.
+A string value `"a,b"` becomes one `<value>` per part: exactly the value list of the model. -/
+def xmlElem (e : Entry) : XNode := .node (shortName e.name) (xmlDesc e.desc) e.attrs []
+
+/-- append `x` as last child of the node `depth` levels down the rightmost spine (`SubElement(parent_node, …)`;
+the code finds `parent_node` by the parent's name in `all_nodes`, which for a preorder listing is that node) -/
+def insertDepth : List XNode → Nat → XNode → Option (List XNode)
+  | F, 0, x => some (F ++ [x])
+  | [], _ + 1, _ => none
+  | [.node n d as ch], k + 1, x => (insertDepth ch k x).map fun ch' => [.node n d as ch']
+  | n :: m :: rest, k + 1, x => (insertDepth (m :: rest) (k + 1) x).map (n :: ·)
+
+/-- the tag section element built by `_output_tags` from the entries written at the given levels -/
+def toXmlFrom : List (Nat × Entry) → List XNode → Option (List XNode)
+  | [], F => some F
+  | (l, e) :: r, F =>
+    match insertDepth F l (xmlElem e) with
+    | none => none
+    | some F' => toXmlFrom r F'
+
+def toXmlTree (leveled : List (Nat × Entry)) : Option (List XNode) := toXmlFrom leveled []
+
+/-- `SchemaLoaderXML._parse_node`: attribute elements → dictionary (`",".join(values)`, empty = `True`) -/
+def readXmlAttrs : Attrs → Attrs → Attrs
+  | [], acc => acc
+  | (k, vs) :: r, acc =>
+    let joined := joinWith [','] vs
+    readXmlAttrs r (dictPut acc k (if joined.isEmpty then [] else splitOn ',' joined))
+
+/-- description of `_parse_node` (after fix a64eb53: kept only if non-blank, stripped) -/
+def readXmlDesc : Option Str → Option Str
+  | none => none
+  | some d => if (strip d).isEmpty then none else some (strip d)
+
+mutual
+/-- `SchemaLoaderXML._add_tags_recursive` on one node -/
+def readNode (parents : List Str) : XNode → List Entry
+  | .node n d as ch =>
+    ⟨joinWith ['/'] (parents ++ [n]), readXmlAttrs as [], readXmlDesc d⟩ :: readForest (parents ++ [n]) ch
+def readForest (parents : List Str) : List XNode → List Entry
+  | [] => []
+  | x :: xs => readNode parents x ++ readForest parents xs
+end
+
+def ofXmlTree (F : List XNode) : List Entry := readForest [] F
+
+/-- what the XML element layout needs: values that survive `",".join` / `split(",")` -/
+def xmlWF (e : Entry) : Bool :=
+  nodupKeys e.attrs && (e.attrs.all fun kv => kv.2.all fun v => !v.isEmpty && v.all (· != ',')) &&
+  (match e.desc with | none => true | some d => !d.isEmpty && trimmed d)
+
 /-! ## Struct-sheet description escape of the TSV format -/
 
 /-- `description.replace("\n", "\\n")` (writer, prologue/epilogue rows) -/
